@@ -37,9 +37,12 @@ zerv.subprocess.run = _wrapped_run
 
 def run_cli(argv, stdin=None):
     # no input => an empty stdin (never the caller's terminal/pipe): zerv reads stdin when it is not a tty
+    # bytes, decoded here: a text-mode pipe would rewrite "\r" in zerv's output to "\n" in the reference too
     if stdin is None:
-        return _real_run([ZERV_BIN, *argv], stdin=subprocess.DEVNULL, capture_output=True, text=True, check=False, env=ENV, cwd="/")
-    return _real_run([ZERV_BIN, *argv], input=stdin, capture_output=True, text=True, check=False, env=ENV, cwd="/")
+        r = _real_run([ZERV_BIN, *argv], stdin=subprocess.DEVNULL, capture_output=True, check=False, env=ENV, cwd="/")
+    else:
+        r = _real_run([ZERV_BIN, *argv], input=stdin.encode("utf-8"), capture_output=True, check=False, env=ENV, cwd="/")
+    return subprocess.CompletedProcess(r.args, r.returncode, r.stdout.decode("utf-8", errors="replace"), r.stderr.decode("utf-8", errors="replace"))
 
 # ---------------------------------------------------------------------------------------
 # independent keyword -> long flag mapping: '_' -> '-', plus the three renamed ones
@@ -205,8 +208,9 @@ VALUES = {
     "input_format": st.sampled_from(["auto", "semver", "pep440"]),
     "output_format": st.sampled_from(["semver", "pep440", "zerv"]),
     # the last value overflows zerv's stack (known finding F17 of C13): the process dies by SIGABRT, the wrapper must raise
-    "output_template": st.sampled_from(["{{ semver }}", "v{{ major }}.{{ minor }}", "{{ pep440 }}+x", "  {{ major }}  ", "{{ bumped_branch }}", "{{ " + "(" * 30000 + "major" + ")" * 30000 + " }}"]),
-    "output_prefix": st.sampled_from(["v", "release-", "é"]),
+    "output_template": st.sampled_from(["{{ semver }}", "v{{ major }}.{{ minor }}", "{{ pep440 }}+x", "  {{ major }}  ", "{{ bumped_branch }}", "{{ major }}\r{{ minor }}", "{{ " + "(" * 30000 + "major" + ")" * 30000 + " }}"]),
+    # carriage returns inside the output: text-mode pipes rewrite them to "\n" (F26)
+    "output_prefix": st.sampled_from(["v", "release-", "é", "a\rb", "x\r\ny", "\rv"]),
     "schema": st.sampled_from(PRESETS),
     "schema_ron": st.sampled_from(['(core:[var(Major),var(Minor)],extra_core:[],build:[])', '(core:[var(Major)],extra_core:[var(PreRelease)],build:[str("x")])']),
     "tag_version": st.sampled_from(["1.2.3", "v2.0.0", "1.0.0-rc.1", "0.1.0-alpha.2.post.3", "10.20.30"]),
